@@ -14,14 +14,14 @@ from ._pairs import V
 PID = "C17"
 LEVEL = "model_checking"
 WITNESSES = ["ks_strictly_between_0_and_1", "ks_full_stress", "cold_coefficient_partial", "heat_coefficient_zero", "gdd_clipped_low", "gdd_clipped_high",
-             "growth_curve_decay_stage", "decline_curve_reaches_zero", "inverse_checked", "fco2_above_1", "fco2_below_1", "fco2_season_reset_site", "fco2_overridden_sink_strength"]
+             "growth_curve_decay_stage", "decline_curve_reaches_zero", "inverse_checked", "fco2_above_1", "fco2_below_1", "fco2_season_reset_site", "fco2_overridden_sink_strength", "aeration_stress_active", "aeration_switched_off_crop"]
 NONTRIVIAL = WITNESSES
 TOL = 1e-12
 
 
 def scenarios(tier, seed=0):
     for name in A.catalogue_names():
-        for fam in ("water_stress", "temperature", "gdd", "canopy", "fco2"):
+        for fam in ("water_stress", "aeration", "temperature", "gdd", "canopy", "fco2"):
             yield {"crop": name, "family": fam, "fine": tier != "quick"}
 
 
@@ -72,6 +72,26 @@ def run(scn):
                     hit("ks_strictly_between_0_and_1")
                 if min(ks) <= 0:
                     hit("ks_full_stress")
+    elif fam == "aeration":
+        # the water-logging member of the water-stress coefficients (bounds only; the statement's monotonicity clause is about depletion)
+        import collections
+        from aquacrop.solution.aeration_stress import aeration_stress
+
+        RZ = collections.namedtuple("RZ", "Act S FC WP Dry Aer")
+        for th_s, th_fc, th_wp in ((0.41, 0.22, 0.10), (0.50, 0.39, 0.23), (0.55, 0.54, 0.39)):
+            aer = th_s - float(crop.Aer) / 100.0
+            for act in np.arange(th_wp / 2, th_s + 1e-9, 0.01 if fine else 0.02):
+                days = 0
+                for call in range(14):   # consecutive days at this water content, carrying the day counter
+                    k, days = aeration_stress(days, crop.LagAer, RZ(float(act), th_s, th_fc, th_wp, th_wp / 2, aer))
+                    k = float(k)
+                    nodes += 1
+                    if not (-TOL <= k <= 1 + TOL) or k != k:
+                        bad("aeration-coefficient-in-0-1", {"value": k, "theta": float(act), "th_s": th_s, "consecutive_call": call + 1, "Aer": float(crop.Aer), "LagAer": float(crop.LagAer)}, "[0,1]")
+                    if k < 1:
+                        hit("aeration_stress_active")
+                    if float(crop.Aer) < 0:
+                        hit("aeration_switched_off_crop")
     elif fam == "temperature":
         temps = np.arange(-30.0, 60.0 + 1e-9, 0.5 if fine else 1.0)
         ph = pc = None
